@@ -3,6 +3,7 @@ import HcModel.Drv.Pair
 import HcModel.Drv.Http
 import HcModel.Drv.Storage
 import HcModel.Drv.Spec
+import HcModel.Drv.CharHttp
 import HcModel.Drv.Notify
 import HcModel.Drv.ConnWrite
 import HcModel.Drv.ConnRead
@@ -32,6 +33,7 @@ def step (line : String) : String :=
   | "xhm" :: rest => Hc.Drv.PinXhm.handleXhm rest
   | "config" :: rest => Hc.Drv.Config.handle rest
   | "notify" :: rest => Hc.Drv.Notify.handle rest
+  | "charhttp" :: rest => Hc.Drv.CharHttp.handle rest
   | "spec" :: rest => Hc.Drv.Spec.handle rest
   | "storage" :: rest => Hc.Drv.Storage.handle rest
   | "fs" :: rest => Hc.Drv.Storage.handleFs rest
